@@ -467,3 +467,17 @@ func init() {
 		},
 	})
 }
+
+func init() {
+	register(&Property{
+		ID:    "C18",
+		Units: append([]string{"fasthttp.(*HostClient).queueForIdle", "fasthttp.(*HostClient).dialConnFor", "fasthttp.(*wantConn).tryDeliver", "fasthttp.(*wantConn).cancel", "fasthttp.(*wantConn).waiting", "fasthttp.(*wantConnQueue)", "fasthttp.(*HostClient).CloseIdleConnections", "fasthttp.(*HostClient).ConnsCount", "fasthttp.AcquireTimer", "fasthttp.ReleaseTimer"}, clientUnits...),
+		Runs: []Run{
+			{Pkg: "fasthttp", Func: "vhC18Pool", Quick: map[string]int{"calls": 2}, Thorough: map[string]int{"calls": 3}, NoNative: true, PathCap: 3000000},
+		},
+		Assume: []string{clientAssume,
+			"`calls` concurrent HostClient.Do calls as goroutines on the engine's cooperative scheduler (virtual time) with MaxConns ∈ {1,2} and MaxConnWaitTimeout 0 or 500 ms; every dial may fail, every response may say Connection: close; the scripted network yields inside Dial and before it answers, so calls interleave there and at every blocking operation of the pool (mutex, wantConn channel, timer); obligations: live connections ≤ MaxConns at every dial, no second request written to a connection before the response to the first was handed over, every call ends with success or one of ErrNoFreeConns / ErrTimeout / the dial error / ErrConnectionClosed within the wait timeout, ConnsCount = idle + lent at quiescence and 0 after CloseIdleConnections with every connection closed exactly once",
+			"instruction-level preemption (data races), the idle-connection cleaner and connection reuse across more than `calls` requests are outside this check; inputs are choices only; sampled paths are not re-run natively (schedule-dependent)",
+		},
+	})
+}
